@@ -12,8 +12,7 @@ RULE = ("seeded histories of thread state and affinity events (OAs/OAr incl. rem
         "sharing a CPU at some instant")
 REAL = ["ovniemu (src/emu/**) built from /repo's working tree"]
 STUB = ["libovni replaced by the independent trace writer sim/tracefmt.py", "traced machine = sim/world.py reference model"]
-ASSUMPTIONS = ["OAs is generated only on active threads and OAr never targets the CPU the thread is already on "
-               "(the emulator is stricter than the statement there; such histories are don't-cares)",
+ASSUMPTIONS = ["OAs is generated only on active threads (the emulator is stricter than the statement there; such histories are don't-cares)",
                "global timestamps are unique"]
 SHRINK_LIST = "actions"
 shrink_candidates = mgen.shrink_actions
